@@ -205,8 +205,11 @@ LargeRespOK(cfg, req, f) ==
 NSLarge(cfg, st, req, out) ==
   LET fr == Frames(out)
       ok == /\ Chk("C02") => Len(fr) <= 1 /\ OpsIn(fr, {OpQueryLargeResp})
+            \* whoever asks: a response, if one is sent, answers THAT request (sequence number, offset, bytes);
+            \* the active mapper (or anyone while none is active) must be answered
             /\ Chk("C08") => IF req.seq = 0 THEN fr = << >>
-                             ELSE CmdInDomain(st, req) => Len(fr) = 1 /\ LargeRespOK(cfg, req, fr[1])
+                             ELSE /\ CmdInDomain(st, req) => Len(fr) = 1
+                                  /\ Len(fr) >= 1 => LargeRespOK(cfg, req, fr[1])
   IN IF ok THEN (IF req.seq = 0 THEN {st} \cup AfterCommand(st, req) ELSE AfterCommand(st, req)) ELSE {}
 
 (* ------------------------------------------------------------------ Reset, everything else *)
